@@ -15,7 +15,7 @@ from .. import sim_replay, tlaval
 LEVEL = "model_checking"
 
 CFG = """SPECIFICATION Spec
-CONSTANTS Scripts <- {scripts}
+CONSTANTS ScriptSets <- {scripts}
  Fns <- {fns}
  SyncFns <- {sfns}
  Period = {period}
@@ -25,6 +25,7 @@ CONSTANTS Scripts <- {scripts}
 INVARIANT ScheduleIndependent
 INVARIANT SetReturnsSettled
 INVARIANT ClockTimes
+INVARIANT TbOrder
 PROPERTY NoTimeTravel
 CHECK_DEADLOCK FALSE
 """
@@ -38,9 +39,9 @@ def run(ctx):
     for (period, phase) in clocks:
         full = (period, phase) == clocks[0]
         r = ctx.tlc("MC_AmSim", stage="mc/kernel-p%d-ph%d" % (period, phase),
-                    cfg_text=CFG.format(scripts="AllScripts", fns="CombFns" if (full or th) else "FewFns", sfns="SyncFnsAll" if (full and th) else "SyncFnsFew", period=period, phase=phase, mutant=""),
+                    cfg_text=CFG.format(scripts="AllScriptSets" if th else "QuickScriptSets", fns="CombFns" if (full or th) else "FewFns", sfns="SyncFnsAll" if (full and th) else "SyncFnsFew", period=period, phase=phase, mutant=""),
                     workers=16, args=("-coverage", "1"), timeout=3000)
-        ctx.require_actions(r, ["TbStep", "AdvanceTime", "RunProc", "Commit", "Converged", "TbDone"])
+        ctx.require_actions(r, ["TbStep", "TbIdle", "AdvanceTime", "RunProc", "Commit", "Converged"])
         done = {}
         for txt in r.printed():
             if '"DONE"' not in txt[:12]:
@@ -67,7 +68,8 @@ def run(ctx):
             total += 1
             for m in mm:
                 key = {"variant": m["variant"], "permuted": m["perm_seed"] is not None,
-                       "kind": m["actual"][m["first_difference_at"]][0] if m["first_difference_at"] < len(m["actual"]) else "missing"}
+                       "testbenches": len(m["script"]),
+                       "kind": m["actual"][m["first_difference_at"]][1] if m["first_difference_at"] < len(m["actual"]) else "missing"}
                 ctx.violation(key, "design %s (%s), period %d phase %d, process order seed %s: observation %d differs: expected %s, got %s"
                               % (m["fn"], m["variant"], period, phase, m["perm_seed"], m["first_difference_at"],
                                  m["expected"][m["first_difference_at"]:m["first_difference_at"] + 1],
@@ -77,8 +79,11 @@ def run(ctx):
                     "observations": [list(o) for o in jobs[0][2]], "runs": "unpermuted + %d seeded permutations x {rtl, proc}" % n_perm})
     ctx.cov["traces_validated_against_impl"] += total * (n_perm + 1) * 2
     ctx.tlc("MC_AmSim", stage="mc/mutant-read-pending",
-            cfg_text=CFG.format(scripts="OneScript", fns="FewFns", sfns="SyncFnsFew", period=10, phase=5, mutant="read_pending"),
+            cfg_text=CFG.format(scripts="OneScriptSet", fns="FewFns", sfns="SyncFnsFew", period=10, phase=5, mutant="read_pending"),
             workers=4, expect_violation="ScheduleIndependent")
+    ctx.tlc("MC_AmSim", stage="mc/mutant-reverse-tb",
+            cfg_text=CFG.format(scripts="TwoTbSets", fns="FewFns", sfns="SyncFnsFew", period=10, phase=5, mutant="reverse_tb"),
+            workers=4, expect_violation="TbOrder")
     ctx.cov["exhaustive"] = False
     ctx.cov["rule"] = ("case = (design = truth tables of the 3 processes + initial register value, script, clock period/phase); "
                        "each replayed unpermuted and under seeded permutations of the ready-process and trigger sets, as RTL and "
